@@ -700,6 +700,11 @@ def _run_iface(case, tar):
     out["energy_cost"] = _call(acnsim.energy_cost, sim)
     out["demand_charge"] = _call(acnsim.demand_charge, sim)
     out["energy_cost_explicit"] = _call(acnsim.energy_cost, sim, tar)
+    # an explicitly given tariff that DIFFERS from the simulation's own signal: the argument decides
+    other = FILES[(FILES.index(case["file"]) + 1) % len(FILES)]
+    out["other_file"] = other
+    out["energy_cost_other"] = _call(acnsim.energy_cost, sim, _tariff(other))
+    out["demand_charge_other"] = _call(acnsim.demand_charge, sim, _tariff(other))
     return out
 
 
@@ -1075,6 +1080,18 @@ def oracle(case, obs):
         else:
             bad = next(s for s in specs if s[0] != "ok")
             fails.setdefault(spec_kind(name, bad), f"energy_cost over {len(agg)} periods from {st}: {bad}")
+        if obs.get("other_file"):
+            oname = obs["other_file"]
+            ospecs = [spec_lookup(oname, st + k * timedelta(minutes=p)) for k in range(len(agg))]
+            if all(s_[0] == "ok" for s_ in ospecs):
+                expo = sum(s_[1] * a for s_, a in zip(ospecs, agg)) * (p / 60)
+                if isinstance(obs["energy_cost_other"], str) or not close(obs["energy_cost_other"], expo, 1e-9):
+                    fails[f"explicit_tariff_not_used:{oname}"] = (f"energy_cost(sim, {oname}) on a simulation whose signal is {name}: "
+                                                                  f"{obs['energy_cost_other']} expected Σ price·power·dt = {expo}")
+                expdo = ospecs[0][2] * max(agg)
+                if isinstance(obs["demand_charge_other"], str) or not close(obs["demand_charge_other"], expdo):
+                    fails[f"explicit_tariff_not_used:{oname}"] = (f"demand_charge(sim, {oname}) on a simulation whose signal is {name}: "
+                                                                  f"{obs['demand_charge_other']} expected rate×peak = {expdo}")
     return [{"kind": k, "detail": v} for k, v in fails.items()]
 
 
